@@ -1,7 +1,7 @@
 """C07 - concurrent object operations are linearizable (symbolic schedule vector, preemption-bounded)."""
 import hashlib
 from props.common import *   # noqa
-from engine import conc
+from engine import conc, crash
 
 W_ARGS = dict(pids=["a", "b"], contents=[b"x", b"0123456789ab"], formats=[None], fake_cid=False)
 
@@ -85,9 +85,13 @@ def fold(run, outs, prefix, bound):
                 continue
             nb += b["count"]
             sig = "%s :: %s :: results=%s" % (o["name"], clause, b["res"])
+            if b.get("fault"):
+                sig += " :: I/O error injected at %s of %s" % (b["fault"][1], crash.addr_kind(b["fault"][2]))
             run.fail(sig, dict(scenario=o["name"], clause=clause, detail=b["detail"], schedule="".join(map(str, b["log"])),
-                               preemptions=b["preemptions"], schedules_failing=b["count"], of=o["schedules"]),
-                     dict(harness="sched", k=o["k"], log=b["log"], bound=bound, clauses=[prefix]))
+                               preemptions=b["preemptions"], schedules_failing=b["count"], of=o["schedules"],
+                               fault=b.get("fault")),
+                     dict(harness="sched", k=o["k"], log=b["log"], bound=bound, clauses=[prefix],
+                          fault_at=b["fault"][0] if b.get("fault") else None))
         run.discharged += o["schedules"] - min(nb, o["schedules"])
 
 
